@@ -118,7 +118,7 @@ var props = map[string]*PropSpec{
 		Level: "fault_enumeration",
 		Scens: []ScenSpec{
 			{ID: "C08E", SeedFromZero: true, QuickRuns: 1560, QuickSecs: 150, ThoroughRuns: 1560, ThoroughSecs: 300},
-			{ID: "C08S", QuickRuns: 600, QuickSecs: 90, ThoroughRuns: 20000, ThoroughSecs: 900},
+			{ID: "C08S", QuickRuns: 600, QuickSecs: 90, ThoroughRuns: 200000, ThoroughSecs: 900},
 		},
 		CoverageRule: "C08E enumerates endpoint {/configuration,/apply_flows} x payload class {change, add, remove, undecodable base64, flow failing validation, bad quota, gateway-config-only, flow+quota change, shorter content for an existing file} x every fault point the fault-free update passes through (each file-system remove/mkdir/create/torn write/read and each HAProxy admin/health call, listed by a recording run), one fault per run, index 0 = fault-free; C08S draws 0-3 simultaneous faults and up to 6 probe transactions that overlap the update, parked at the published-but-not-initialised point, at fault points and at instrumented lock sites; non-trivial = a fault fired or the payload is one the gateway must reject; distinct = (endpoint, class, fault set, schedule) signatures among non-trivial runs",
 		Assumptions: []string{
